@@ -15,4 +15,30 @@ CLAIMS = {
   engines=["coq-model", "correspondence"]),
 }
 
+PARTIAL_SOLVERS = (" Proof status: the Coq theorems proved so far for this property cover the per-component queries of the complete and stable solvers for EVERY valid SAT oracle (built on the C10 encoder theorems) and the abort behaviour (C17); the gluing of components, the grounded fix-point and the MaximalExtensionComputer loops (PR, SST, STG, ID) are not yet theorems: for them the claim rests on the exact trace replay against Model.Solvers plus the brute-force oracle on every run (see the header of coq/theories/Properties/%s.v, which lists what is and is not proved).")
+
+def _solver_claim(pid, what, oracle):
+    return dict(
+      text=("Hand-written Gallina model of the static solvers (Model.Solvers: component split, encoders, MaximalExtensionComputer, all trait entry points) whose every SAT interaction goes through a program monad with the SAT answers as an oracle parameter. " + what +
+            " Tie on every run: the real solvers are run with a recording SAT solver injected through the public factory API (every clause, n_vars value, assumption list and CaDiCaL answer recorded), the extracted model is replayed on the same framework with the recorded answers as script, and the two event traces and outcomes must coincide (order-insensitive only inside clauses and between two solves). Independent oracle: " + oracle + (PARTIAL_SOLVERS % pid)),
+      note=NOTE_TB + "CaDiCaL's answers are not trusted for the oracle verdict (the brute-force reference from Spec.AF judges the outcome); they are validated per run, never proved. Theorems hold for every valid oracle, i.e. for all models a correct SAT solver may return, not only the ones observed.",
+      technique="Coq proof (for every valid SAT oracle) about a Gallina model of the solvers + exact SAT-trace replay of the real solvers against the extracted model + brute-force semantic oracle",
+      engines=["coq-model", "correspondence"])
+
+CLAIMS["C01"] = _solver_claim("C01", "Theorem C01_stable_component_partial: the stable solver's component step returns a stable extension and reports none only if none exists.",
+   "the returned set is judged by the brute-force definition (extb / all_exts) on all frameworks with <= 3 arguments, generated frameworks (sparse ids, duplicates, several components) and replay-only frameworks up to 300 arguments.")
+CLAIMS["C02"] = _solver_claim("C02", "Theorems C02_complete_component_partial / C02_stable_component_partial: the guarded query returns a model iff the argument is credulously accepted (CO; ST) in the component.",
+   "statuses judged by credb (brute force) for every argument of every framework with <= 3 arguments and on generated frameworks.")
+CLAIMS["C03"] = _solver_claim("C03", "Theorem C03_stable_component_partial: the stable solver's skeptical component step is unsatisfiable iff every stable extension of the component contains the argument.",
+   "statuses judged by skepb (brute force) for every argument of every framework with <= 3 arguments and on generated frameworks incl. grounded-insensitive motifs.")
+CLAIMS["C04"] = _solver_claim("C04", "Theorems C04_*_witness_component_partial: the model returned by a component query denotes an extension containing (credulous) resp. omitting (skeptical) the argument, and none is returned otherwise.",
+   "certificates judged by brute force: presence exactly when promised, extension of the right semantics, contains/omits the argument, members are the caller's (id,label) pairs, no duplicates.")
+CLAIMS["C07"] = _solver_claim("C07", "Theorems C07_*_list_*_component_partial: for every argument list (repetitions allowed) the complete solver's query (with and without certificate) and the stable solver's component steps answer the disjunction. The two defects found here (D1, D2) are repaired by fix: commits.",
+   "all lists of 1-2 arguments on all frameworks with <= 2 (quick) / 3 (thorough) arguments and lists of 1-3 arguments with forced spreads on generated frameworks, judged by the brute-force disjunction semantics.")
+CLAIMS["C17"] = dict(
+  text="Coq theorem C17_unknown_aborts (axiom-free) about Model.Solvers.run_query, for every entry point, framework, argument list, encoder, fuel and EVERY oracle (any sequence of answers): a run that ends in Abort has an Unknown answer as its last SAT event and no earlier one; a run that ends in any other way (outcome, panic, out of fuel) consumed no Unknown answer - so an undecided SAT call is never converted into a status, extension or certificate. Tie on every run: each generated query is first run fault-free to count its SAT calls K and then once per call position with the k-th answer replaced by Unknown through a SatSolver wrapper injected by the public factory API; the real outcome must be an abort with that Unknown as last SAT event, and the recorded trace is replayed on the extracted model. Not yet covered by a theorem: the text-level failure kinds (truncated / garbled replies: C16's reply parser theorem) and the CLI exit status.",
+  note=NOTE_TB + "Rust's unwinding runs Drop of MaximalExtensionComputer after the panic (one more clause is added): events after the Unknown answer are outside the query and are ignored by the comparison.",
+  technique="Coq invariant proof over the SAT-program monad (Abort is absorbing, solve is the only consumer of answers) + fault enumeration at every SAT-call position of the real solvers, replayed on the extracted model",
+  engines=["coq-model", "correspondence"])
+
 NOT_YET = "check not built yet (work in progress; see DESIGN.md section 13)"
